@@ -1319,6 +1319,7 @@ class HeapSystem(System):
     """heap of sparse objects, in-place operations / item assignment between members and constants; the mirror is a dict of dense
     arrays (objects that are rows of A are mirrored through A)."""
     nontrivial_per_config = False
+    merge_across_configs = True      # a config only chooses the initial contents; canon() holds every container and the mirror
 
     def __init__(self, name, n, members, depth_q, depth_t, lattice_q=(4, 16), lattice_t=(16, 64), consts='full', tcap_q=None, tcap_t=None,
                  state_cap=3_000_000, inits=None):
